@@ -76,7 +76,9 @@ pub const F: &str = "did:x:2";
 /// Method ids of the full universe: three fragments under the own DID, two under the foreign one, two ids that
 /// differ from another one only in query/path (distinct set keys that every query matches alike), and an id that
 /// collides with a service id.
-const METHOD_IDS: [&str; 9] = [
+const METHOD_IDS: [&str; 10] = [
+  // a fragment that begins with the letters `did` (a bare fragment query for it must not be taken for a DID)
+  "did:x:1#didkey",
   // a fragment containing `/` (legal: fragment = *( pchar / "/" / "?" )); the DID part of such an id ends at the `#`
   "did:x:1#k/1",
   "did:x:1#a",
@@ -98,9 +100,12 @@ const SERVICE_IDS: [&str; 7] = [
   "did:x:1#s?x",
   "did:x:1#k/1",
 ];
-const RELATIVE_QUERIES: [&str; 9] = ["#a", "#b", "#c", "#s", "a", "b", "c", "#k/1", "k/1"];
+const RELATIVE_QUERIES: [&str; 11] = ["#a", "#b", "#c", "#s", "a", "b", "c", "#k/1", "k/1", "didkey", "#didkey"];
 /// Queries resolved after every step (× scope ∈ {None, 6 scopes}).
-const RESOLVE_QUERIES: [&str; 26] = [
+const RESOLVE_QUERIES: [&str; 29] = [
+  "did:x:1#didkey",
+  "#didkey",
+  "didkey",
   "did:x:1#k/1",
   "#k/1",
   "k/1",
@@ -387,6 +392,29 @@ fn check_resolution(doc: &mut CoreDocument, snap: &Snapshot, at: &str, obs: &mut
         obs.label("resolve-through-reference");
       }
       judge_lookup("resolve-method", query, scope, &got, &pred, model, at, obs)?;
+      // the same query handed over in the other types `DIDUrlQuery` converts from
+      let owned: String = query.to_string();
+      let got_string = doc.resolve_method(&owned, scope.map(lib_scope)).map(seen_method);
+      vensure!(
+        obs,
+        got_string == got,
+        "resolve-method-query-types-disagree",
+        "{at}: resolve_method({query:?}, {scope:?}) finds {got:?} for a &str and {got_string:?} for a &String"
+      );
+      if let Ok(url) = DIDUrl::parse(query) {
+        // (a DID URL that does not print as it was written would be another query)
+        if url.to_string() == query {
+          obs.label("resolve-typed-did-url-query");
+          let by_ref = doc.resolve_method(&url, scope.map(lib_scope)).map(seen_method);
+          let by_value = doc.resolve_method(url.clone(), scope.map(lib_scope)).map(seen_method);
+          vensure!(
+            obs,
+            by_ref == got && by_value == got,
+            "resolve-method-query-types-disagree",
+            "{at}: resolve_method({query:?}, {scope:?}) finds {got:?} for a &str, {by_ref:?} for a &DIDUrl, {by_value:?} for a DIDUrl"
+          );
+        }
+      }
       let got_mut = doc.resolve_method_mut(query, scope.map(lib_scope)).map(|m| seen_method(m));
       judge_lookup("resolve-method-mut", query, scope, &got_mut, &pred, model, at, obs)?;
     }
@@ -633,6 +661,13 @@ fn step(doc: &mut CoreDocument, pre: &Snapshot, op: &Op, at: &str, obs: &mut Obs
           );
         }
         None => {
+          vensure!(
+            obs,
+            had.is_none(),
+            "remove-method-none-although-present",
+            "{at}: returned None although the pre-state carries {had:?} under exactly that id; state {}",
+            state(pre)
+          );
           // `None` says that no method was found; the rustdoc nevertheless removes every reference with that id
           // ("includes cases where the reference is to a method contained in another DID document").
           let mut refs_gone = pre.model.clone();
